@@ -14,16 +14,17 @@ Is(e) == l <= Len(T) /\ E.a = e
 Adv == l' = l + 1 /\ UNCHANGED tid
 Fail(name, r) == TLCSet(N + tid, name) /\ TLCSet(2 * N + tid, r) /\ FALSE
 Check(name, cond) == IF cond THEN TRUE ELSE Fail(name, 0)
-Asserted(b) == {r \in Active(L, b) : ~Reg(L, r).presetdc}
+\* L.free: leaves that are not asserted per register (overlapping descriptions, ambiguous presets)
+Asserted(b) == Active(L, b) \ ToSet(L.free)
 \* the logged projection of the real object (raw bits of every leaf) equals the spec state
 StateMatches(name, b, P) ==
   LET bad == {r \in Asserted(b) : b[r] # ToSet(P[r])}
   IN IF bad = {} THEN TRUE ELSE Fail(name, CHOOSE r \in bad : \A x \in bad : r <= x)
 \* the values decoded from the exported bytes at the offsets of the layout equal the spec state
 BinMatches(name, b, P) ==
-  LET bad == {r \in Asserted(b) : ~Reg(L, r).binfree /\ b[r] # ToSet(P[r])}
+  LET bad == {r \in Asserted(b) : b[r] # ToSet(P[r])}
   IN IF bad = {} THEN TRUE ELSE Fail(name, CHOOSE r \in bad : \A x \in bad : r <= x)
-Decoded(P) == [r \in Leaves(L) |-> ToSet(P[r])]
+Decoded(P) == [r \in LeafSet(L) |-> ToSet(P[r])]
 
 TInit == /\ tid \in 1..N /\ l = 1 /\ lay = Traces[tid].lay
          /\ bits = Fresh(Layouts[Traces[tid].lay]) /\ nrm = (Computed(Layouts[Traces[tid].lay]) = {}) /\ gen = 1
@@ -51,8 +52,8 @@ TExport == /\ Is("Export") /\ Export(E.seal)
            /\ Check("SizeFixed", E.size = ExpSize(L, bits))
            /\ Check("GapsFilled", E.gaps)
            /\ BinMatches("ExportFaithful", bin'.b, E.bin)
-           /\ Check("ComputedHold", ComputedHold(L, Decoded(E.bin)))
-           /\ Check("SizeField", SizeFieldHolds(L, Decoded(E.bin)))
+           /\ Check("ComputedHold", Computed(L) = {} \/ ComputedHold(L, Decoded(E.bin)))
+           /\ Check("SizeField", L.sizefld.r = 0 \/ SizeFieldHolds(L, Decoded(E.bin)))
            /\ Check("Seal", E.seal => SealHolds(L, Decoded(E.bin)))
            /\ Check("BytesStable", (bin.ok /\ Same(L, bin.b, bin'.b) /\ Same(L, bin'.b, bin.b)) => E.eqprev)
            /\ Check("Rotkh", E.rotkh) /\ Check("Crc", E.crc) /\ Adv
